@@ -18,6 +18,9 @@ import (
 // C02 — Pack followed by Unpack reproduces the source tree.
 // C20 — the metadata Pack returns describes the slug it wrote.
 
+// c20Earlier is the observation of the previous successful Pack of this worker.
+var c20Earlier *packObs
+
 type rtCase struct {
 	Tree gen.TreeSpec `json:"-"`
 	Opts packOpts     `json:"opts"`
@@ -87,7 +90,20 @@ func runRoundTrip(which string, env *fw.Env, c rtCase) fw.Result {
 		res.Obs = map[string]int64{"slug_entries": int64(len(obs.Entries)), "regular_entries": int64(reg)}
 		if msg := metaCheck(obs); msg != "" {
 			res.Verdict, res.Finding, res.Msg = fw.Violated, "meta-mismatch", msg
+			return res
 		}
+		// what an earlier Pack returned keeps describing the slug it wrote,
+		// whatever was packed since (by this worker)
+		if c20Earlier != nil {
+			if msg := metaCheck(*c20Earlier); msg != "" {
+				res.Verdict, res.Finding = fw.Violated, "meta-of-an-earlier-pack-changed"
+				res.Msg = "the Meta returned by the previous Pack call no longer describes the slug that call wrote, after this Pack call: " + msg
+				c20Earlier = nil
+				return res
+			}
+		}
+		keep := obs
+		c20Earlier = &keep
 		return res
 	}
 	// ---- C02
